@@ -144,8 +144,9 @@ class LinSpaceBuilder(ProgramBuilder):
         factors = []
         bases = []
         for value in voltages:
-            if isinstance(value, float):
-                bases.append(value)
+            if not isinstance(value, SimpleExpression):
+                # plain number (python/numpy float or int): does not depend on a loop index
+                bases.append(float(value))
                 factors.append(None)
                 continue
             offsets = value.offsets
@@ -331,10 +332,14 @@ class _TranslationState:
         if pre_dep_state != post_dep_state:
             # hackedy
             self.commands.pop(initial_position)
-            self.commands.append(label)
             label.count -= 1
-            self.add_node(node.body)
-        self.commands.append(jmp)
+            if label.count > 0:
+                # the first repetition is already unrolled above; a label with count 0 would still play its body once
+                self.commands.append(label)
+                self.add_node(node.body)
+                self.commands.append(jmp)
+        else:
+            self.commands.append(jmp)
 
     def _add_iteration_node(self, node: LinSpaceIter):
         self.iterations.append(0)
